@@ -53,6 +53,7 @@ def verilog_names(rng, net, style):
             mp[n] = escaped()
         else:
             mp[n] = plain()
+    extra_bufs = []
     if style == "synthetic":
         # names the expression machinery of the reader invents for partial terms of n-ary gates
         wide = [(n, v) for n, v in nodes.items() if v[0] in ref.MULTI and len(v[1]) >= 3]
@@ -65,7 +66,11 @@ def verilog_names(rng, net, style):
                 victims = [v for v in plain_nodes if v not in (x, y) and nodes[v][0] in ref.GATES]
                 if victims and new not in used and "\\" not in new:
                     used.add(new)
-                    mp[rng.choice(victims)] = new
+                    v = rng.choice(victims)
+                    mp[v] = new
+                    if rng.random() < 0.6:
+                        # a plain reader of the look-alike net ("assign w = xor_a_b;")
+                        extra_bufs.append(v)
         vals = list(mp.values())
         for _ in range(rng.randint(1, 3)):
             a, b = rng.choice(vals), rng.choice(vals)
@@ -87,11 +92,18 @@ def verilog_names(rng, net, style):
         return mp[x]
     for n, (t, fi, o) in nodes.items():
         out_nodes[rn(n)] = [t, [rn(f) for f in fi], o]
+    for v in extra_bufs:
+        b = plain()
+        out_nodes[b] = ["buf", [rn(v)], rng.random() < 0.7]
+    if extra_bufs and rng.random() < 0.5:
+        items = list(out_nodes.items())
+        rng.shuffle(items)
+        out_nodes = dict(items)
     return {"name": net["name"], "nodes": out_nodes, "bbs": {inst_map[i]: v for i, v in net["bbs"].items()}}
 
 
 def gen(rng, tier):
-    style = rng.choices(("plain", "escaped", "synthetic"), weights=[6, 2.5, 1.5])[0]
+    style = rng.choices(("plain", "escaped", "synthetic"), weights=[5, 2.5, 2.5])[0]
     nb = rng.choice((0, 0, 1, 2, 3))
     net = G.gen_net(rng, n_inputs=(1, 5), n_gates=(1, 12), types=G.swarm_types(rng), max_arity=rng.randint(2, 5),
                     constants=rng.choice((0.0, 0.0, 0.6)), bbs=nb, unconnected_pins=rng.choice((0.0, 0.3)),
